@@ -2240,35 +2240,210 @@ def _string_with_capacity(eng, t, a, fr, dt):
     return st
 
 
+def ers_stream_decode(eng, pending, src, room, last):
+    """Model of encoding_rs 0.8 `Decoder::decode_to_utf8` for UTF-8 (utf_8.rs + macros.rs + handles.rs):
+    byte-at-a-time state machine with the fast path `copy_utf8_up_to_invalid_from`, the space check
+    `check_space_astral` (4 free bytes) before every byte of the slow path, and the unchecked 3-byte
+    U+FFFD write after a malformed sequence.  Returns (chars, new_pending, result 0|1, read, had_errors).
+    Validated against the real crate for small capacities in C11's prelude."""
+    ctx = eng.ctx
+
+    def inr(b, lo, hi):
+        if b.concrete:
+            return lo <= b.v <= hi
+        return ctx.branch(z3.And(z3.UGE(b.v, lo), z3.ULE(b.v, hi)))
+
+    def ext(b):
+        return b.v if b.concrete else z3.ZeroExt(24, b.v)
+
+    # decoder state from the bytes held since the previous call (a valid unfinished prefix)
+    need = seen = 0
+    lo, hi = 0x80, 0xBF
+    cp = None
+    held = list(pending)
+    if held:
+        b = held[0]
+        if inr(b, 0xC2, 0xDF):
+            need, cp = 1, ext(b) & 0x1F
+        elif inr(b, 0xE0, 0xEF):
+            need, cp = 2, ext(b) & 0x0F
+            if inr(b, 0xE0, 0xE0):
+                lo = 0xA0
+            elif inr(b, 0xED, 0xED):
+                hi = 0x9F
+        else:
+            need, cp = 3, ext(b) & 0x07
+            if inr(b, 0xF0, 0xF0):
+                lo = 0x90
+            elif inr(b, 0xF4, 0xF4):
+                hi = 0x8F
+        for b in held[1:]:
+            cp = (cp << 6) | (ext(b) & 0x3F)
+            seen += 1
+            lo, hi = 0x80, 0xBF
+    out = []
+    had = False
+    i = 0
+    n = len(src)
+    left = room
+
+    def valid_prefix(k0, limit):
+        """number of bytes of src[k0:k0+limit] forming complete well-formed sequences; also their chars"""
+        k = k0
+        chars = []
+        end = k0 + limit
+        while k < end:
+            b0 = src[k]
+            if inr(b0, 0x00, 0x7F):
+                chars.append(ext(b0))
+                k += 1
+                continue
+            if inr(b0, 0xC2, 0xDF):
+                nn, l2, h2, c0 = 1, 0x80, 0xBF, ext(b0) & 0x1F
+            elif inr(b0, 0xE0, 0xEF):
+                nn, l2, h2, c0 = 2, 0x80, 0xBF, ext(b0) & 0x0F
+                if inr(b0, 0xE0, 0xE0):
+                    l2 = 0xA0
+                elif inr(b0, 0xED, 0xED):
+                    h2 = 0x9F
+            elif inr(b0, 0xF0, 0xF4):
+                nn, l2, h2, c0 = 3, 0x80, 0xBF, ext(b0) & 0x07
+                if inr(b0, 0xF0, 0xF0):
+                    l2 = 0x90
+                elif inr(b0, 0xF4, 0xF4):
+                    h2 = 0x8F
+            else:
+                break
+            if k + 1 + nn > end:
+                break       # the sequence does not fit into the window: not copied by the fast path
+            okc = True
+            c = c0
+            for m in range(nn):
+                bj = src[k + 1 + m]
+                l_, h_ = (l2, h2) if m == 0 else (0x80, 0xBF)
+                if not inr(bj, l_, h_):
+                    okc = False
+                    break
+                c = (c << 6) | (ext(bj) & 0x3F)
+            if not okc:
+                break
+            chars.append(c)
+            k += 1 + nn
+        return k - k0, chars
+
+    result = 0
+    while True:
+        # ---- decode_to_utf8_raw
+        malformed = False
+        while True:
+            if need == 0:
+                window = min(n - i, max(left, 0))
+                if window > 0:
+                    k, chars = valid_prefix(i, window)
+                    out.extend(chars)
+                    i += k
+                    left -= k
+            if i == n:
+                if last and need != 0:
+                    need = seen = 0
+                    cp = None
+                    lo, hi = 0x80, 0xBF
+                    held = []
+                    malformed = True
+                    break
+                break
+            if left < 4:
+                result = 1
+                break
+            b = src[i]
+            i += 1
+            if need == 0:
+                if inr(b, 0x00, 0x7F):
+                    out.append(ext(b))
+                    left -= 1
+                    continue
+                if inr(b, 0x80, 0xC1):
+                    malformed = True
+                    break
+                if inr(b, 0xC2, 0xDF):
+                    need, cp, held = 1, ext(b) & 0x1F, [b]
+                    continue
+                if inr(b, 0xE0, 0xEF):
+                    if inr(b, 0xE0, 0xE0):
+                        lo = 0xA0
+                    elif inr(b, 0xED, 0xED):
+                        hi = 0x9F
+                    need, cp, held = 2, ext(b) & 0x0F, [b]
+                    continue
+                if inr(b, 0xF0, 0xF4):
+                    if inr(b, 0xF0, 0xF0):
+                        lo = 0x90
+                    elif inr(b, 0xF4, 0xF4):
+                        hi = 0x8F
+                    need, cp, held = 3, ext(b) & 0x07, [b]
+                    continue
+                malformed = True
+                break
+            if not inr(b, lo, hi):
+                need = seen = 0
+                cp = None
+                lo, hi = 0x80, 0xBF
+                held = []
+                i -= 1          # unread
+                malformed = True
+                break
+            lo, hi = 0x80, 0xBF
+            cp = (cp << 6) | (ext(b) & 0x3F)
+            seen += 1
+            held.append(b)
+            if seen != need:
+                continue
+            out.append(cp)
+            left -= 4 if need == 3 else char_len_of(eng, cp)
+            need = seen = 0
+            cp = None
+            held = []
+        if not malformed:
+            break
+        had = True
+        if left < 3:
+            raise Panic('index out of bounds in encoding_rs::Decoder::decode_to_utf8 (no room for U+FFFD)')
+        out.append(0xFFFD)
+        left -= 3
+    return out, (held if need else []), result, i, had
+
+
+def char_len_of(eng, cp):
+    l = char_utf8_len(cp)
+    if type(l) is int:
+        return l
+    return eng.ctx.concretize(l)
+
+
 @reg('Decoder::decode_to_string')
 def _decode_to_string(eng, t, a, fr, dt):
     dref, src, dst, last = a
     dec = eng.load(dref)
     pending, bom, at_start = dec.f
+    if bom != 'none':
+        raise Unmodelled('Decoder with BOM handling in streaming mode')
     src_items = [deref_all(x) for x in seq_items(eng, src)]
-    # the decoder only guarantees to consume all input when the destination has at least
-    # max_utf8_buffer_length(src.len()) bytes of room; with less it may stop early (OutputFull), which
-    # this summary does not model -- such a call is reported as inconclusive, never as a pass
     d0 = eng.load(dst)
-    need = _decoder_needed(len(pending.items), Int('usize', len(src_items)))
     ent = getattr(eng, 'str_caps', {}).get(id(d0))
     cap = ent[1] if ent is not None and ent[0] is d0 else Int('usize', 0)
-    room = cap
-    if src_items and not eng.ctx.must(_cmp('Ge', 'usize', room.v, need.v)):
-        raise Unmodelled('Decoder::decode_to_string with a destination of capacity %s where max_utf8_buffer_length '
-                         'requires %s: encoding_rs may return OutputFull and leave input unread' % (cap.v, need.v))
-    bs = list(pending.items) + src_items
-    ctx = eng.ctx
-    if bom != 'none' and at_start and len(bs) >= 3:
-        isbom = bool_and(bool_and(int_eq(bs[0], 0xEF), int_eq(bs[1], 0xBB)), int_eq(bs[2], 0xBF))
-        if ctx.branch(isbom):
-            bs = bs[3:]
-    lastv = last if type(last) is bool else ctx.branch(last)
-    chars, e, pend = utf8_decode(eng, bs, lossy_tail=lastv, want_pending=True)
-    eng.store(dref, Agg('Decoder', (VecV(pend), bom, at_start and len(bs) < 3 and bom != 'none')))
-    cur = as_str(eng, eng.load(dst))
-    eng.store(dst, Str(cur.c + tuple(chars)))
-    return Agg('tuple', (Enum('CoderResult', 0), Int('usize', len(src_items)), e))
+    used = str_len(eng, as_str(eng, d0))
+    capv = cap.v if cap.concrete else eng.ctx.concretize(cap.v)
+    usedv = used.v if used.concrete else eng.ctx.concretize(used.v)
+    room = max(capv - usedv, 0)
+    lastv = last if type(last) is bool else eng.ctx.branch(last)
+    chars, pend, result, read, had = ers_stream_decode(eng, list(pending.items), src_items, room, lastv)
+    eng.store(dref, Agg('Decoder', (VecV(pend), bom, False)))
+    cur = as_str(eng, d0)
+    newstr = Str(cur.c + tuple(chars))
+    if ent is not None:
+        eng.str_caps[id(newstr)] = (newstr, cap)
+    eng.store(dst, newstr)
+    return Agg('tuple', (Enum('CoderResult', result), Int('usize', read), had))
 
 
 # --------------------------------------------------------------------------- further std methods a plausible edit may use
